@@ -85,8 +85,7 @@ inductive Op where
   `popitem`, `remove`, `^=`, …): the basic mutations it amounts to in the current heap;
   `none` = the harness skips it (KeyError before anything happens). -/
   | dyn (f : Heap → Option (List Mutation))
-  /-- `del o.n` with the notifier list of the trait in existence (ctraits.c setattr_trait,
-  `value == NULL` branch); `fresh` names a container default. -/
+  /-- `del o.n` (`Mutation.delField`); `fresh` names a container default and is declared. -/
   | delField (o : Id) (n : Name) (fresh : Id)
   | observe (handler : Nat) (root : Id) (rm : Bool) (e : Expr)
   | kill (handler : Nat)
@@ -328,31 +327,10 @@ def stepOp (d : DSt) (op : Op) : DSt × String :=
          let r := runMuts d ms
          (r.1, r.2.1, status r.2.2))
     | .delField o n fresh =>
-      -- ctraits.c setattr_trait, `value == NULL` (:2441-2489), notifier list non-NULL
+      -- Model.Obs.Mutation.delField: the delete branch of setattr_trait (ctraits.c:2441-2489)
       let d0 := { d with conts := d.conts ++ (if d.conts.contains fresh then [] else [fresh]) }
-      (match d0.st.h.get o with
-       | .inst fs =>
-         (match findField fs n with
-          | none => (d0, [], "err Other")
-          | some f =>
-            -- :2451-2454 nothing in `__dict__`: nothing happens
-            if f.val == .unset then (d0, [], "ok")
-            else
-              -- :2457 PyDict_DelItem; :2468 `value = traito->getattr(…)`: getattr_trait evaluates
-              -- the default, stores it and announces Uninitialized -> default (:2025-2030)
-              let r1 := mutate d0.env ⟨storeField d0.st.h o n .unset, d0.st.H⟩ (.read o n fresh)
-              let d1 := { d0 with st := r1.st }
-              match r1.err with
-              | some e => (d1, r1.delivered, status (some e))
-              | none =>
-                let new := fieldVal r1.st.h (some o) n
-                -- :2474-2483 `changed = (old_value != value)` (identity; always under
-                -- comparison_mode none), then call_notifiers(old, value)
-                if f.cmp == .none || f.val != new then
-                  let r2 := fire d1.env r1.st.H r1.st.h o n f.val new
-                  ({ d1 with st := r2.st }, r1.delivered ++ r2.delivered, status r2.err)
-                else (d1, r1.delivered, "ok"))
-       | _ => (d0, [], "err Other"))
+      let r := mutate d0.env d0.st (.delField o n fresh)
+      ({ d0 with st := r.st }, r.delivered, status r.err)
     | .addList o f items tagged =>
       -- has_traits.py:2846-2848: `self.add_trait(name + "_items", handler.items_event())` runs first.
       -- It announces the companion only when the object has no trait of that name yet
